@@ -40,14 +40,15 @@ def main():
         assert sh(f'git -C /repo worktree add -q --detach {wt} HEAD').returncode == 0
         env = dict(os.environ, PYTHONPATH=f'/tmp/shim:{wt}')
         demo_src = open(demo).read().replace('/tmp/wt/' + (os.path.basename(src) if src else sid), wt)
-        open(os.path.join(wt, '_demo.py'), 'w').write(demo_src)
-        r0 = subprocess.run(['/venv/bin/python', '_demo.py'], cwd=wt, env=env, capture_output=True, text=True, timeout=600)
+        os.makedirs(os.path.join(wt, '_seed'), exist_ok=True)
+        open(os.path.join(wt, '_seed', '_demo.py'), 'w').write(demo_src)
+        r0 = subprocess.run(['/venv/bin/python', '_seed/_demo.py'], cwd=wt, env=env, capture_output=True, text=True, timeout=600)
         meta['demo_unmodified_exit'] = r0.returncode
         a = sh(f'git -C {wt} apply {patch}')
         meta['patch_applies'] = a.returncode == 0
         if a.returncode:
             meta['apply_error'] = a.stderr[-400:]
-        r1 = subprocess.run(['/venv/bin/python', '_demo.py'], cwd=wt, env=env, capture_output=True, text=True, timeout=600)
+        r1 = subprocess.run(['/venv/bin/python', '_seed/_demo.py'], cwd=wt, env=env, capture_output=True, text=True, timeout=600)
         meta['demo_with_change_exit'] = r1.returncode
         meta['demo_with_change_tail'] = (r1.stdout + r1.stderr)[-600:]
         b = json.load(open('/root/.vp/BASELINE.json'))
